@@ -34,8 +34,10 @@ inline MatCL toCL(const Eigen::MatrixBase<Derived>& m)
 }
 
 template <typename Derived>
-inline LD maxabs(const Eigen::MatrixBase<Derived>& m)
+inline LD maxabs(const Eigen::MatrixBase<Derived>& m_)
 {
+    // evaluate once: coefficient access on a product expression would re-evaluate the product per entry
+    const typename Derived::PlainObject m = m_;
     if (m.size() == 0) return 0;
     LD r = 0;
     for (Eigen::Index j = 0; j < m.cols(); j++)
@@ -48,8 +50,9 @@ inline LD maxabs(const Eigen::MatrixBase<Derived>& m)
     return r;
 }
 template <typename Derived>
-inline LD fro(const Eigen::MatrixBase<Derived>& m)
+inline LD fro(const Eigen::MatrixBase<Derived>& m_)
 {
+    const typename Derived::PlainObject m = m_;
     if (m.size() == 0) return 0;
     LD s = maxabs(m);
     if (s == 0 || !std::isfinite((double) s)) return s;
@@ -63,8 +66,9 @@ inline LD fro(const Eigen::MatrixBase<Derived>& m)
     return s * std::sqrt(a);
 }
 template <typename Derived>
-inline bool all_finite(const Eigen::MatrixBase<Derived>& m)
+inline bool all_finite(const Eigen::MatrixBase<Derived>& m_)
 {
+    const typename Derived::PlainObject m = m_;
     for (Eigen::Index j = 0; j < m.cols(); j++)
         for (Eigen::Index i = 0; i < m.rows(); i++)
             if (!std::isfinite((double) std::abs(m(i, j)))) return false;
@@ -72,8 +76,9 @@ inline bool all_finite(const Eigen::MatrixBase<Derived>& m)
 }
 
 template <typename Derived>
-inline std::string mat_str(const Eigen::MatrixBase<Derived>& m)
+inline std::string mat_str(const Eigen::MatrixBase<Derived>& m_)
 {
+    const typename Derived::PlainObject m = m_;
     std::ostringstream o;
     o.precision(17);
     o << "[";
